@@ -152,6 +152,14 @@ class ProgGen:
                 out += [p + "else:"] + self.suite(depth - 1, inloop, ind + 4)
             return out
         if r < 0.88 or "for" not in self.f:
+            if "const-test" in self.f and self.rng.random() < 0.05:
+                # a falsy literal as the test of a while: the body never runs, an else clause always does
+                # (a truthy one would spin; seeded change C07-r7 dropped the else clause of `while 0:`)
+                t = self.rng.choice(["0", "None", "False", '""'])
+                out = [p + "while %s:" % t] + self.suite(depth - 1, True, ind + 4)
+                if "while-else" in self.f and self.rng.random() < 0.7:
+                    out += [p + "else:"] + self.suite(depth - 1, inloop, ind + 4)
+                return out
             out = [p + "while %s:" % self.test(loop=True)] + self.suite(depth - 1, True, ind + 4)
             if "while-else" in self.f and self.rng.random() < 0.3:
                 out += [p + "else:"] + self.suite(depth - 1, inloop, ind + 4)
